@@ -68,6 +68,8 @@ type fsEvent struct {
 	Lr  string          `json:"lr"`
 	Le  term            `json:"le"`
 	X   json.RawMessage `json:"x"`
+	St  int64           `json:"st"` // StartTime() (units since the replay began) and ElapsedTime() (units) as read at the event
+	El  int64           `json:"el"`
 }
 
 type fsProbe struct {
@@ -315,12 +317,12 @@ func (r *recorder) attempt(name string, layer int, a failsafe.ExecutionAttempt[s
 				}
 			}
 			return M{"ev": name, "x": xOf(a.Context()), "L": layer, "att": att, "exe": exe, "ret": ret, "hdg": hdg,
-				"lr": resName(a.LastResult()), "le": projectErr(le)}
+				"lr": resName(a.LastResult()), "le": projectErr(le), "st": int64(a.StartTime().Sub(r.t0) / r.unit), "el": int64(a.ElapsedTime() / r.unit)}
 		}, x)
 		return
 	}
 	r.add(fsEvent{Ev: name, L: layer, Att: a.Attempts(), Exe: a.Executions(), Ret: a.Retries(), Hdg: a.Hedges(),
-		Lr: resName(a.LastResult()), Le: projectErr(a.LastError()), X: rawOf(x)})
+		Lr: resName(a.LastResult()), Le: projectErr(a.LastError()), X: rawOf(x), St: int64(a.StartTime().Sub(r.t0) / r.unit), El: int64(a.ElapsedTime() / r.unit)})
 }
 
 func (r *recorder) info(name string, layer int, a failsafe.ExecutionInfo, res string, err error, x any) {
@@ -328,12 +330,12 @@ func (r *recorder) info(name string, layer int, a failsafe.ExecutionInfo, res st
 		r.tlineF(func() M {
 			att, exe, ret, hdg := stableCounters(a)
 			return M{"ev": name, "x": xOf(a.Context()), "L": layer, "att": att, "exe": exe, "ret": ret, "hdg": hdg,
-				"lr": resName(res), "le": projectErr(err)}
+				"lr": resName(res), "le": projectErr(err), "st": int64(a.StartTime().Sub(r.t0) / r.unit), "el": int64(a.ElapsedTime() / r.unit)}
 		}, x)
 		return
 	}
 	r.add(fsEvent{Ev: name, L: layer, Att: a.Attempts(), Exe: a.Executions(), Ret: a.Retries(), Hdg: a.Hedges(),
-		Lr: resName(res), Le: projectErr(err), X: rawOf(x)})
+		Lr: resName(res), Le: projectErr(err), X: rawOf(x), St: int64(a.StartTime().Sub(r.t0) / r.unit), El: int64(a.ElapsedTime() / r.unit)})
 }
 
 func (r *recorder) plain(name string, layer int, res string, x any) {
@@ -365,17 +367,26 @@ type instrCache struct {
 }
 
 func (c *instrCache) Get(key string) (string, bool) {
-	c.rec.plain("CacheGet", c.layer, "", key)
 	c.mu.Lock()
 	defer c.mu.Unlock()
 	v, ok := c.m[key]
+	if c.rec.tmode {
+		// the line and the access are one step (the line sits in the trace where the access took effect)
+		c.rec.tline(M{"ev": "CacheGet", "L": c.layer, "key": key, "found": ok, "v": resName(v)}, nil)
+	} else {
+		c.rec.plain("CacheGet", c.layer, "", key)
+	}
 	return v, ok
 }
 func (c *instrCache) Set(key string, value string) {
-	c.rec.plain("CacheSet", c.layer, value, key)
 	c.mu.Lock()
+	defer c.mu.Unlock()
+	if c.rec.tmode {
+		c.rec.tline(M{"ev": "CacheSet", "L": c.layer, "key": key, "v": resName(value)}, nil)
+	} else {
+		c.rec.plain("CacheSet", c.layer, value, key)
+	}
 	c.m[key] = value
-	c.mu.Unlock()
 }
 
 type builtStack struct {
@@ -859,7 +870,7 @@ func kindOfLayer(stack []desc, l int) string {
 }
 
 func replaySeq(b fsBehaviour, unit time.Duration, entry int, variant int) (mis []fsMismatch, nontrivial bool) {
-	rec := &recorder{unit: unit, variant: variant % 6, alt: (variant / 6) % 4}
+	rec := &recorder{unit: unit, variant: variant % 6, alt: (variant / 6) % 4, t0: time.Now()}
 	bs := buildStack(b.Stack, unit, rec)
 	n := len(b.Stack)
 	add := func(x int, tag, kind, f string, a ...any) {
@@ -998,6 +1009,9 @@ func replaySeq(b fsBehaviour, unit time.Duration, entry int, variant int) (mis [
 				}
 				if g.Att != -1 && (g.Att != w.Att || g.Exe != w.Exe || g.Ret != w.Ret || g.Hdg != w.Hdg) {
 					add(xi, "evsnap", kind, "event %d %s@%d sees attempts/executions/retries/hedges %d/%d/%d/%d, spec %d/%d/%d/%d", k, w.Ev, w.L, g.Att, g.Exe, g.Ret, g.Hdg, w.Att, w.Exe, w.Ret, w.Hdg)
+				}
+				if g.Att != -1 && (g.St != w.St || g.El != w.El) {
+					add(xi, "evsnap", kind, "event %d %s@%d reports StartTime %d, ElapsedTime %d (units), spec %d, %d", k, w.Ev, w.L, g.St, g.El, w.St, w.El)
 				}
 				if (g.Att != -1 || w.Ev == "CacheSet") && (g.Lr != w.Lr || !termEq(g.Le, w.Le)) {
 					add(xi, "evsnap", kind, "event %d %s@%d sees last (%s, %s), spec (%s, %s)", k, w.Ev, w.L, g.Lr, g.Le, w.Lr, w.Le)
